@@ -3703,7 +3703,9 @@ class AllConnGraph(nx.DiGraph):
         """
         Set the val into the positions of the original array based on indices_list.
 
-        This function handles both views and copies by propagating changes back through the chain.
+        The indexers are composed on an array of flat positions of arr and the value is written
+        once, so the result does not depend on whether an indexer returns a view or a copy, on
+        repeated entries in an intermediate level, or on the memory layout of arr.
 
         Parameters
         ----------
@@ -3724,14 +3726,15 @@ class AllConnGraph(nx.DiGraph):
         msg = ''
         try:
             if indices_list:
-                chain = [arr]
+                pos = np.arange(arr.size).reshape(arr.shape)
                 for idx in indices_list:
-                    chain.append(idx.indexed_val(chain[-1]))
+                    # a single entry selected by an int index is a (1,) variable for the next one
+                    pos = idx.indexed_val(np.atleast_1d(pos))
 
                 # a single value broadcasts (convert_set hands scalars over as 1-element arrays)
-                if np.size(val) != 1 and np.squeeze(val).shape != np.squeeze(chain[-1]).shape:
+                if np.size(val) != 1 and np.squeeze(val).shape != np.squeeze(pos).shape:
                     msg = (f"Value shape {np.squeeze(val).shape} does not match shape "
-                           f"{np.squeeze(chain[-1]).shape} of the destination")
+                           f"{np.squeeze(pos).shape} of the destination")
             else:
                 try:
                     arr[:] = val
@@ -3744,20 +3747,8 @@ class AllConnGraph(nx.DiGraph):
         if msg:
             raise ValueError(f"Failed to set value of '{node[1]}': {msg}.")
 
-        last = chain[-1]
-        if (isinstance(last, np.ndarray) and last.ndim == 0) or np.isscalar(last):
-            if isinstance(val, np.ndarray) and val.size == 1:
-                val = val[0]
-            chain[-1] = val
-        else:
-            last[:] = val
-
-        for i in range(len(chain) - 2, -1, -1):
-            sub = chain[i + 1]
-            prev = chain[i]
-            idx = indices_list[i]
-            if sub.base is not prev:
-                idx.indexed_val_set(prev, sub)
+        # arr.flat also writes through when arr is not contiguous (real part of a complex vector)
+        arr.flat[np.ravel(pos)] = np.ravel(val)[0] if np.size(val) == 1 else np.ravel(val)
 
     def get_src_index_array(self, abs_in):
         """
